@@ -58,7 +58,7 @@ class C17(Scenario):
     design_ref = "DESIGN.md 3.3, 4/C17"
     level_text = ("Seeded search over producer/remover/closer programs x virtual-time gaps around the delay boundary x thread interleavings "
                   "(sticky/random/PCT(d<=3) with statement-level pre-emption inside delayed_queue.py) of the real DelayedQueue; oracle over the recorded "
-                  "history: FIFO, exactly-once (get xor remove), never early, exact hand-out time when nothing is removed, nothing lost at drain, close() unblocks "
+                  "history: FIFO, exactly-once (get xor remove), remove() never empty-handed while a matching delayed element certainly is queued, never early, exact hand-out time when nothing is removed, nothing lost at drain, close() unblocks "
                   "(scheduler deadlock verdict) and a later get() returns the end marker at once. Sampling, not proof; PCT gives a per-run hit probability for depth<=3 races.")
     level_note = "trusts: CPython GIL atomicity of deque operations; sim primitives mirror threading.Lock/Condition semantics (FIFO wake-up, no spurious wake-ups)"
     technique = "deterministic simulation: seeded PCT/random scheduler over real threads, virtual clock, history oracle, delta-debugged replay"
@@ -190,7 +190,7 @@ class C17(Scenario):
                         inv = sim.next_seq()
                         inv_t = sim.now
                         r = call('remove', q.remove, pred)
-                        rec = {"inv_seq": inv, "inv_t": inv_t, "ret_seq": sim.next_seq(), "ret_t": sim.now, "res": None if r is None else r[1], "kind": kind}
+                        rec = {"inv_seq": inv, "inv_t": inv_t, "ret_seq": sim.next_seq(), "ret_t": sim.now, "res": None if r is None else r[1], "kind": kind, "target": target}
                         hist["removes"].append(rec)
                         sim.rec("remove", kind, target, rec["res"], sim.now)
 
@@ -272,6 +272,21 @@ class C17(Scenario):
             both = [x for x in dup if x in got and x in removed]
             sig = "C17:dup:get+remove" if both else "C17:dup:get+get"
             v.append(Violation("duplicate", sig, f"elements handed out more than once: {dup}; gets={got} removes={removed}"))
+        # remove() ignores the delay and scans the whole queue: it may not come back empty-handed while a matching delayed
+        # element certainly sits in the queue (put returned before the call; not yet due, so no get() can have taken it;
+        # taken by no other remove that began before this one ended)
+        for r in hist["removes"]:
+            if r["res"] is not None or "target" not in r:
+                continue
+            for e, p in puts.items():
+                if not p["delayed"] or "ret_seq" not in p or p["ret_seq"] >= r["inv_seq"] or r["ret_t"] >= p["inv_t"] + dticks:
+                    continue
+                if r["kind"] == "id" and e != r["target"]:
+                    continue
+                if any(o["res"] == e and o["inv_seq"] < r["ret_seq"] for o in hist["removes"]):
+                    continue
+                v.append(Violation("remove", "C17:remove-missed-queued-element", f"remove({r['kind']}, {r['target']}) at {r['inv_t']}..{r['ret_t']} returned None although delayed element {e} (put at {p['inv_t']}, due {p['inv_t'] + dticks}) was queued; gets={got} removes={removed}"))
+                break
         unknown = [x for x in handed if x not in puts]
         if unknown:
             v.append(Violation("invented", "C17:invented", f"{unknown}"))
